@@ -1,6 +1,260 @@
-// mm.cc -- C18 memory-manager model check (direct driving of the five styles)
+// mm.cc -- C18: memory managers driven directly against a reference allocator model
+//
+// case text (also the replay format):
+//     mm <style> <granularity> <minsize>
+//     req <slots>
+//     rel <k>            release the k-th live chunk (in allocation order); ignored if k is out of range
+//     relall
 #include "mv.h"
+#include <algorithm>
+#include <cstring>
+
+using namespace MEDDLY;
+
 namespace mv {
-int runMemoryManagerCase(Rand&, int, Labels&, Failure&, std::string&) { return 0; }
-int replayMemoryManager(const std::string&, Failure&) { return 0; }
+
+namespace {
+
+struct Chunk { node_address h; size_t slots; uint32_t seed; };
+
+struct MMModel {
+    memory_manager* MM = nullptr;
+    memstats stats;
+    int gran = 4;
+    std::vector<Chunk> live;                // allocation order
+    // freed address intervals [lo, hi) in bytes, with "remainder of a split hole" flag
+    struct Hole { uintptr_t hi; bool remainder; };
+    std::map<uintptr_t, Hole> holes;
+    Labels* L = nullptr;
+    long ops = 0;
+
+    uintptr_t addrOf(const Chunk& c) const { return uintptr_t(MM->getChunkAddress(c.h)); }
+
+    static uint64_t pat(uint32_t seed, size_t i) { return (uint64_t(seed) * 2654435761u + i * 40503u) & 0x7fffffffULL; }
+
+    void fill(const Chunk& c)
+    {
+        unsigned char* p = (unsigned char*) MM->getChunkAddress(c.h);
+        for (size_t i = 0; i < c.slots; i++) {
+            if (gran == 4) { uint32_t v = uint32_t(pat(c.seed, i)); memcpy(p + 4 * i, &v, 4); }
+            else { uint64_t v = pat(c.seed, i) | (pat(c.seed, i + 7) << 32); v &= 0x7fffffffffffffffULL; memcpy(p + 8 * i, &v, 8); }
+        }
+    }
+    bool intact(const Chunk& c, size_t& bad) const
+    {
+        const unsigned char* p = (const unsigned char*) MM->getChunkAddress(c.h);
+        for (size_t i = 0; i < c.slots; i++) {
+            if (gran == 4) { uint32_t v; memcpy(&v, p + 4 * i, 4); if (v != uint32_t(pat(c.seed, i))) { bad = i; return false; } }
+            else { uint64_t v, w = (pat(c.seed, i) | (pat(c.seed, i + 7) << 32)) & 0x7fffffffffffffffULL; memcpy(&v, p + 8 * i, 8); if (v != w) { bad = i; return false; } }
+        }
+        return true;
+    }
+
+    bool checkAll(Failure& fl, const char* when)
+    {
+        char buf[256];
+        // contents intact, handles valid, pairwise disjoint (re-derive every address: they may move)
+        std::vector<std::pair<uintptr_t, uintptr_t>> rng;
+        for (auto& c : live) {
+            if (!MM->isValidHandle(c.h)) { snprintf(buf, sizeof buf, "%s: isValidHandle(%lu) is false for a live chunk", when, (unsigned long) c.h); fl = {"C18.invalid-handle", buf}; return false; }
+            size_t bad = 0;
+            if (!intact(c, bad)) { snprintf(buf, sizeof buf, "%s: slot %zu of live chunk %lu (%zu slots) was altered", when, bad, (unsigned long) c.h, c.slots); fl = {"C18.corrupted", buf}; return false; }
+            uintptr_t a = addrOf(c);
+            rng.push_back({a, a + c.slots * size_t(gran)});
+        }
+        std::sort(rng.begin(), rng.end());
+        for (size_t i = 1; i < rng.size(); i++) if (rng[i].first < rng[i - 1].second) { snprintf(buf, sizeof buf, "%s: two live chunks overlap", when); fl = {"C18.overlap", buf}; return false; }
+        return true;
+    }
+
+    void noteAlloc(uintptr_t lo, uintptr_t hi)
+    {
+        // find the freed interval containing [lo,hi)
+        auto it = holes.upper_bound(lo);
+        if (it == holes.begin()) return;
+        --it;
+        if (it->first <= lo && it->second.hi >= hi) {
+            uintptr_t hlo = it->first, hhi = it->second.hi; bool rem = it->second.remainder;
+            holes.erase(it);
+            if (rem) L->add("split_remainder_reused");
+            if (hlo < lo || hi < hhi) L->add("split");
+            else L->add("exact_fit");
+            if (hlo < lo) holes[hlo] = {lo, true};
+            if (hi < hhi) holes[hi] = {hhi, true};
+        } else {
+            // partial overlaps with our idea of the holes (the manager may have compacted): forget them
+            while (it != holes.end() && it->first < hi) { if (it->second.hi > lo) it = holes.erase(it); else ++it; }
+        }
+    }
+    void noteFree(uintptr_t lo, uintptr_t hi)
+    {
+        bool rem = false;
+        auto nx = holes.find(hi);
+        if (nx != holes.end()) { hi = nx->second.hi; rem = rem || nx->second.remainder; holes.erase(nx); L->add("coalesce"); }
+        auto it = holes.lower_bound(lo);
+        if (it != holes.begin()) { --it; if (it->second.hi == lo) { lo = it->first; rem = rem || it->second.remainder; holes.erase(it); L->add("coalesce"); } }
+        holes[lo] = {hi, rem};
+    }
+
+    bool request(size_t n, Failure& fl)
+    {
+        char buf[256];
+        size_t m = n;
+        node_address h = 0;
+        try { h = MM->requestChunk(m); }
+        catch (MEDDLY::error& e) { snprintf(buf, sizeof buf, "requestChunk(%zu) threw %s", n, e.getName()); fl = {"exception", buf}; return false; }
+        ops++;
+        if (h == 0 || m == 0) { snprintf(buf, sizeof buf, "requestChunk(%zu) failed", n); fl = {"C18.request-failed", buf}; return false; }
+        if (m < n) { snprintf(buf, sizeof buf, "requestChunk(%zu) granted only %zu slots", n, m); fl = {"C18.short-chunk", buf}; return false; }
+        for (auto& c : live) if (c.h == h) { snprintf(buf, sizeof buf, "requestChunk(%zu) returned handle %lu, which is still live", n, (unsigned long) h); fl = {"C18.handle-reused-while-live", buf}; return false; }
+        Chunk c{h, m, uint32_t(ops * 2246822519u + uint32_t(h))};
+        // the new chunk must not overlap any live chunk, and live contents must be intact
+        live.push_back(c);
+        {
+            Chunk saved = live.back(); live.pop_back();
+            if (!checkAll(fl, "after requestChunk")) return false;
+            live.push_back(saved);
+        }
+        uintptr_t a = addrOf(c);
+        for (size_t i = 0; i + 1 < live.size(); i++) {
+            uintptr_t b = addrOf(live[i]);
+            if (a < b + live[i].slots * size_t(gran) && b < a + m * size_t(gran)) { snprintf(buf, sizeof buf, "requestChunk(%zu) returned memory overlapping live chunk %lu", n, (unsigned long) live[i].h); fl = {"C18.overlap", buf}; return false; }
+        }
+        fill(live.back());
+        noteAlloc(a, a + m * size_t(gran));
+        if (m > n) L->add("granted_more_than_requested");
+        if (n > 16) L->add("request_over_16_slots");
+        return true;
+    }
+
+    bool release(size_t k, Failure& fl)
+    {
+        if (k >= live.size()) return true;
+        Chunk c = live[k];
+        size_t bad = 0;
+        char buf[200];
+        if (!intact(c, bad)) { snprintf(buf, sizeof buf, "slot %zu of chunk %lu was altered before its release", bad, (unsigned long) c.h); fl = {"C18.corrupted", buf}; return false; }
+        uintptr_t a = addrOf(c);
+        live.erase(live.begin() + long(k));
+        try { MM->recycleChunk(c.h, c.slots); }
+        catch (MEDDLY::error& e) { snprintf(buf, sizeof buf, "recycleChunk threw %s", e.getName()); fl = {"exception", buf}; return false; }
+        ops++;
+        noteFree(a, a + c.slots * size_t(gran));
+        return checkAll(fl, "after recycleChunk");
+    }
+};
+
+const memory_manager_style* styleByName(const std::string& s)
+{
+    if (s == "ORIGINAL_GRID") return ORIGINAL_GRID;
+    if (s == "ARRAY_PLUS_GRID") return ARRAY_PLUS_GRID;
+    if (s == "MALLOC_MANAGER") return MALLOC_MANAGER;
+    if (s == "HEAP_MANAGER") return HEAP_MANAGER;
+    if (s == "FREELISTS") return FREELISTS;
+    return nullptr;
 }
+
+// executes a case text; 0 ok, 2 failure
+int execute(const std::string& text, Labels& L, Failure& fl)
+{
+    std::istringstream in(text);
+    std::string line;
+    MMModel M; M.L = &L;
+    bool inited = false;
+    int rc = 0;
+    size_t minsize = 2, maxreq = 1000;
+    while (std::getline(in, line)) {
+        std::istringstream ls(line);
+        std::string op; ls >> op;
+        if (op == "mm") {
+            std::string style; int g = 4, ms = 2; ls >> style >> g >> ms;
+            if (inited) continue;
+            if ((g != 4 && g != 8) || ms < 1 || ms > 8) { continue; }
+            if (style == "FREELISTS") { maxreq = 15; if (ms < 2) ms = 2; } else { if (g != 4) g = 4; if (ms < 3) ms = 3; }
+            MEDDLY::initialize();
+            inited = true;
+            const memory_manager_style* st = styleByName(style);
+            if (!st) break;
+            M.gran = g; minsize = size_t(ms);
+            M.MM = st->initManager((unsigned char) g, (unsigned char) ms, M.stats);
+            if (!M.MM) { fl = {"C18.no-manager", "initManager returned null for " + style}; rc = 2; break; }
+            L.add("style." + style + ".g" + std::to_string(g));
+        } else if (!M.MM) {
+            continue;
+        } else if (op == "req") {
+            size_t n = 0; ls >> n;
+            if (n < minsize || n > maxreq) continue;
+            if (!M.request(n, fl)) { rc = 2; break; }
+        } else if (op == "rel") {
+            size_t k = 0; ls >> k;
+            if (!M.release(k, fl)) { rc = 2; break; }
+        } else if (op == "relall") {
+            while (!M.live.empty()) if (!M.release(M.live.size() - 1 - (M.live.size() % 2 ? 0 : M.live.size() / 2), fl)) { rc = 2; break; }
+            if (rc) break;
+            L.add("total_release");
+        }
+    }
+    if (rc == 0 && M.MM) {
+        // final sweep, then release everything
+        if (!M.checkAll(fl, "at the end")) rc = 2;
+        while (rc == 0 && !M.live.empty()) if (!M.release(M.live.size() - 1, fl)) rc = 2;
+    }
+    L.add("mm_ops", M.ops);
+    if (M.MM && rc == 0) delete M.MM;
+    if (inited && rc == 0) MEDDLY::cleanup();
+    return rc;
+}
+
+} // namespace
+
+int runMemoryManagerCase(Rand& R, int tier, Labels& L, Failure& fl, std::string& desc)
+{
+    static const char* STYLES[5] = {"ORIGINAL_GRID", "ARRAY_PLUS_GRID", "HEAP_MANAGER", "MALLOC_MANAGER", "FREELISTS"};
+    const std::string style = STYLES[R.below(5)];
+    const bool fls = style == "FREELISTS";
+    const int gran = fls ? (R.chance(50) ? 4 : 8) : 4;
+    const int minsize = fls ? 2 : R.range(3, 5);
+    const size_t maxreq = fls ? 15 : (R.chance(30) ? 600 : 40);
+    std::ostringstream o;
+    o << "mm " << style << " " << gran << " " << minsize << "\n";
+    long nops = R.range(50, tier ? 6000 : 700);
+    long liveCount = 0;
+    // a few popular sizes (exact fits), otherwise skewed small
+    std::vector<size_t> popular;
+    for (int i = 0; i < 3; i++) popular.push_back(size_t(R.range(minsize, int(std::min<size_t>(maxreq, 24)))));
+    int phase = 0;      // 0 grow, 1 mixed, 2 shrink
+    for (long i = 0; i < nops; i++) {
+        if (R.chance(2)) phase = int(R.below(3));
+        int preq = phase == 0 ? 80 : phase == 1 ? 50 : 20;
+        if (liveCount == 0 || R.chance(preq)) {
+            size_t n;
+            int r = int(R.below(100));
+            if (r < 35) n = popular[R.below(3)];
+            else if (r < 85) n = size_t(R.range(minsize, int(std::min<size_t>(maxreq, 20))));
+            else n = size_t(R.range(minsize, int(maxreq)));
+            o << "req " << n << "\n";
+            liveCount++;
+        } else {
+            long k;
+            int r = int(R.below(100));
+            if (r < 30) k = liveCount - 1;                  // most recent
+            else if (r < 45) k = 0;                          // oldest
+            else k = long(R.below(uint32_t(liveCount)));
+            // often free a neighbour of the previous free (adjacent holes)
+            o << "rel " << k << "\n";
+            if (R.chance(35) && liveCount > 1 && k < liveCount - 1) { o << "rel " << k << "\n"; liveCount--; }
+            liveCount--;
+        }
+        if (R.chance(1)) { o << "relall\n"; liveCount = 0; }
+    }
+    desc = o.str();
+    return execute(desc, L, fl);
+}
+
+int replayMemoryManager(const std::string& text, Failure& fl)
+{
+    Labels L;
+    return execute(text, L, fl);
+}
+
+} // namespace mv
